@@ -16,7 +16,32 @@ import (
 
 var registry = map[string]*propSpec{}
 
-func register(s *propSpec) { registry[s.ID] = s }
+func register(s *propSpec) {
+	if extra, ok := laterRules[s.ID]; ok {
+		s.Explanation += " Rules added after seeded waves 8-9 (DESIGN.md 8.1f/8.1g): " + extra
+	}
+	registry[s.ID] = s
+}
+
+// laterRules: one-line statements of the rules added after the per-property explanations were written.
+var laterRules = map[string]string{
+	"C01": "coinbase-maturity comparisons in the wallet package have the canonical relation; only the owner, the expiry sweep or a confirmed spend ends a lease (C12's rules).",
+	"C02": "an iterator's reposition seeks exactly the position it is given.",
+	"C03": "every address built from a derived extended key is recorded for derive-on-unlock; the account-cache invalidation evicts on every path.",
+	"C04": "live crypto keys captured by function literals are used under the manager mutex; the unlocked flag is set last.",
+	"C05": "the unlocked flag is set last; evicted accounts are wiped first.",
+	"C06": "the wallet locker grants an unlock hold only when the manager is not locked.",
+	"C07": "the change output is sized 8 + prefix + script; the dust test covers the serialized output; the P2PKH script size constant covers the key sizes the wallet holds (known finding F36).",
+	"C08": "a cache-miss load uses the address the cache was asked for; readers of hashed buckets hash.",
+	"C10": "between a write and a success return the write's error has been looked at (rule D).",
+	"C12": "the outpoints handed to a rescan include leased outputs.",
+	"C13": "record key and output index of a previous-output script fetch come from one source; every input of a mined record is looked at.",
+	"C15": "PutSyncedTo leaves no hash above the stamped height; the bitcoind block filter announces every block it is asked to notify; a recovery batch's stamps and transactions share one database transaction.",
+	"C16": "the recovery starts at the birthday block the startup path may just have re-based.",
+	"C18": "a queue-owning client's shutdown always stops the queue.",
+	"C19": "the upgrade's database transaction rolls back on error and panic (C11-R1 taken over); version writers report failed writes.",
+	"C20": "the function the recorded transaction is handed to cannot fail before the send without removing it; the backend's answer is the searched text in every error mapping; forgetting a transaction ends no lease.",
+}
 
 func main() {
 	prop := flag.String("property", "", "property id (C01..C20) or 'all'")
